@@ -623,9 +623,10 @@ class AbstractFormat:
         The conditions are:
           1. Quantum: other.exp <= self.exp  (other is at least as fine-grained)
           2. Bounds:  other.pos_bound >= self.pos_bound  and  other.neg_bound <= self.neg_bound
-          3. Precision: either other.prec >= self.prec, *or* self's entire range lies within
-             other's subnormal region (pos_bound <= 2^(other.exp + other.prec)), in which case
-             the floating-point precision of other is irrelevant — all values fit exactly.
+          3. Precision: either other.prec >= self.prec, *or* self's entire range lies below
+             2^(self.exp + other.prec), in which case every value of self -- a multiple of
+             2^self.exp -- has at most other.prec significant digits.  This applies whenever
+             other.prec is finite, whether or not other.exp is.
           4. Special values: every special value in self must also be in other
              (a member of self that other lacks breaks containment).  This
              includes ``-0.0``, which conditions 1-3 cannot see: they compare
@@ -651,8 +652,11 @@ class AbstractFormat:
             return False
         if other.neg_bound > self.neg_bound:
             return False
-        # 3. precision — only constraining when other has a finite normal region
-        if not isinstance(other.prec, float) and not isinstance(other.exp, float):
+        # 3. precision — constraining whenever other's precision is finite.  An
+        # unbounded exponent range (`other.exp == -inf`, e.g. `MPFloatFormat`)
+        # gives other *no* subnormal region, so it is no reason to skip the
+        # test: `FP32 <= MPFloat(11)` must fail.
+        if not isinstance(other.prec, float):
             if self.prec > other.prec:
                 # easy check failed: other's spacing in its normal region widens faster.
                 # Containment still holds if self's bound stays within the region where
